@@ -1,5 +1,6 @@
 // hkharness drives the real hookaido packages (built from /repo's working tree with -tags verif)
 // and writes one JSON record per step for the Lean driver.
+//
 //go:debug randseednop=0
 package main
 
